@@ -64,7 +64,9 @@ RULE = ("for each attrs class of swh.model.model, each SWHID class and Immutable
         "from_dict routes); ~1/3 of the mapping arguments are ALREADY FROZEN ImmutableDicts observed before the construction and "
         "after every step; copy_pop(present/absent key) steps on ImmutableDict objects; Revision with legacy metadata "
         "(fresh dict or frozen) holding extra_headers; every object built twice from the very same argument objects; "
-        "twins = equal / same-objects / eq=False-field-differs / one-field-differs / permuted-insertion-order "
+        "twins 'equal-but-differently-spelled' (== but not identical: True/1/1.0, 0.0/-0.0, nested dicts in another key "
+        "order, inside ImmutableDict and every metadata/branches argument): a == b must imply equal hashes or TypeError on "
+        "both, one set member, one dict key; twins = equal / same-objects / eq=False-field-differs / one-field-differs / permuted-insertion-order "
         "arguments.  non-trivial = at least one kept container argument is mutated after construction, or twins "
         "differing only in insertion order / eq=False fields; distinct = distinct case")
 TRUSTED = [
@@ -91,7 +93,7 @@ FUEL = 12
 
 
 # ------------------------------------------------------------------ value specs (JSON-able)
-# None | ["b",hex] | ["s",str] | ["i",int] | ["B",bool] | ["e",EnumClass,NAME] | ["dt",iso]
+# None | ["b",hex] | ["s",str] | ["i",int] | ["f",repr(float)] | ["B",bool] | ["e",EnumClass,NAME] | ["dt",iso]
 # ["t",[..]] tuple | ["l",[..]] list (kept) | ["d",[[k,v],..]] dict (kept) | ["I",[[k,v],..]] ImmutableDict
 # ["o",Class,[[field,spec],..]] frozen instance built with the constructor
 
@@ -156,6 +158,8 @@ def build(spec, kept, frozen=None, plain=False):
         return spec[1]
     if t == "i":
         return int(spec[1])
+    if t == "f":
+        return float(spec[1])
     if t == "B":
         return bool(spec[1])
     if t == "e":
@@ -197,10 +201,14 @@ def atom_hex(v):
         return "01" + v.hex()
     if isinstance(v, str):
         return "02" + v.encode("utf-8", "surrogatepass").hex()
-    if isinstance(v, bool):
-        return "04" + (b"1" if v else b"0").hex()
-    if isinstance(v, int):
-        return "03" + str(v).encode().hex()
+    if isinstance(v, (bool, int, float)):
+        # numbers are ONE kind of atom, spelled canonically: Python's == (and hash) does not
+        # distinguish True / 1 / 1.0, nor 0.0 / -0.0 ("same atom iff ==" is the model's contract)
+        if isinstance(v, float) and (v != v or v in (float("inf"), float("-inf"))):
+            return "08" + repr(v).encode().hex()
+        if v == int(v):
+            return "03" + str(int(v)).encode().hex()
+        return "03" + repr(float(v)).encode().hex()
     if isinstance(v, enum.Enum):
         return "05" + (type(v).__name__ + "." + v.name).encode().hex()
     if isinstance(v, datetime.datetime):
@@ -225,7 +233,7 @@ class Enc:
         if spec is None:
             return "N"
         t = spec[0]
-        if t in ("b", "s", "i", "B", "e", "dt"):
+        if t in ("b", "s", "i", "f", "B", "e", "dt"):
             return "A" + spec_atom_hex(spec)
         if t == "t":
             return "T(" + ";".join(self.val(x) for x in spec[1]) + ")"
@@ -656,6 +664,8 @@ def to_spec(v, mutable=True):
         return ["s", v]
     if isinstance(v, int):
         return ["i", v]
+    if isinstance(v, float):
+        return ["f", repr(v)]
     if isinstance(v, enum.Enum):
         return ["e", type(v).__name__, v.name]
     if isinstance(v, datetime.datetime):
@@ -758,6 +768,80 @@ def permute_dicts(rng, spec):
     return spec
 
 
+def rich_value(rng, depth=0):
+    """values with spelling freedom: numbers, nested lists / tuples / dicts of numbers"""
+    r = rng.random()
+    if depth >= 2 or r < 0.35:
+        return rng.choice([["i", 0], ["i", 1], ["B", True], ["B", False], ["f", "0.0"], ["f", "-0.0"], ["f", "1.0"],
+                           ["i", 2], ["f", "2.0"], ["f", "2.5"], ["i", -3], ["s", "x"], None])
+    if r < 0.55:
+        return ["l", [rich_value(rng, depth + 1) for _ in range(rng.choice([1, 2, 3]))]]
+    if r < 0.7:
+        return ["t", [rich_value(rng, depth + 1) for _ in range(rng.choice([1, 2]))]]
+    return ["d", [[["s", "n%d" % i], rich_value(rng, depth + 1)] for i in range(rng.choice([2, 3]))]]
+
+
+def rich_items(rng):
+    fixed = [[["s", "a"], ["l", [["i", 0], ["B", False]]]],
+             [["s", "nested"], ["d", [[["s", "x"], ["i", 1]], [["s", "y"], ["l", [["i", 1]]]]]]],
+             [["s", "t"], ["t", [["i", 1]]]]]
+    items = [it for it in fixed if rng.random() < 0.6]
+    items += [[["s", "r%d" % i], rich_value(rng)] for i in range(rng.choice([1, 2, 3]))]
+    rng.shuffle(items)
+    return items
+
+
+def respell(rng, spec, top=True):
+    """an == value spelled differently: numbers of another type, nested dicts in another key order"""
+    if spec is None:
+        return None
+    t = spec[0]
+    if t in ("i", "B", "f"):
+        v = build(spec, [])
+        alts = [["f", repr(float(v))]]
+        if v == int(v):
+            alts.append(["i", int(v)])
+            if int(v) in (0, 1):
+                alts.append(["B", bool(v)])
+            if v == 0:
+                alts += [["f", "-0.0"], ["f", "0.0"]]
+        return rng.choice(alts)
+    if t in ("l", "t"):
+        return [t, [respell(rng, x, False) for x in spec[1]]]
+    if t in ("d", "I"):
+        items = [[k, respell(rng, v, False)] for k, v in spec[1]]
+        rng.shuffle(items)
+        if len(items) > 1 and [k for k, _ in items] == [k for k, _ in spec[1]]:
+            items.reverse()
+        return [t, items]
+    return spec
+
+
+def spelled_cases(rng, cname):
+    """twins 'equal-but-differently-spelled': == in Python, not identical in spelling"""
+    out = []
+    if cname == "ImmutableDict":
+        items = rich_items(rng)
+        a1 = [["data", [rng.choice(["d", "I"]), items]]]
+        a2 = [["data", respell(rng, [rng.choice(["d", "I"]), items])]]
+        out.append({"kind": "twins", "cls": cname, "variation": "equal-but-differently-spelled", "args1": a1, "args2": a2})
+        return out
+    a = gen_obj(rng, cname, hashable=True)
+    names = [f for f, _ in a[2]]
+    if "metadata" in names and cname != "RawExtrinsicMetadata":
+        items = rich_items(rng)
+        args1 = [[f, ([rng.choice(["d", "I"]), items] if f == "metadata" else v)] for f, v in a[2]]
+        args2 = [[f, (respell(rng, [rng.choice(["d", "I"]), items]) if f == "metadata" else v)] for f, v in a[2]]
+    elif "branches" in names:
+        args1 = a[2]
+        args2 = [[f, (respell(rng, v) if f == "branches" else v)] for f, v in a[2]]
+    else:
+        return out
+    if builds(args1, cname) and builds(args2, cname):
+        out.append({"kind": "twins", "cls": cname, "variation": "equal-but-differently-spelled", "args1": args1, "args2": args2})
+    return out
+
+
 def twins_cases(rng, cname):
     out = []
     a = gen_obj(rng, cname, hashable=rng.random() < 0.8)
@@ -818,8 +902,10 @@ def gen(rng, tier):
             if fd:
                 cases.append(fd)
             cases += twins_cases(rng, cname)
+            cases += spelled_cases(rng, cname)
     for _ in range(n_obj * 3):
         cases.append(idict_case(rng))
+        cases += spelled_cases(rng, "ImmutableDict")
         items = rmeta_items(rng, hashable=rng.random() < 0.8)
         cases.append({"kind": "twins", "cls": "ImmutableDict", "variation": "same",
                       "args1": [["data", ["d", items]]], "args2": [["data", ["d", items]]]})
@@ -844,7 +930,8 @@ def nontrivial(c):
     if c["kind"] == "script":
         return _mutated_containers(c) >= 1
     if c["kind"] == "twins":
-        return c["variation"] in ("noneq-fields", "nested-noneq", "permuted", "dict-vs-idict") or (
+        return c["variation"] in ("noneq-fields", "nested-noneq", "permuted", "dict-vs-idict",
+                                  "equal-but-differently-spelled") or (
             c["variation"] == "same-objects" and any(v is not None and v[0] in ("I", "d") for _, v in c["args1"]))
     if c["kind"] == "perms":
         return len(c["items"]) >= 2
@@ -1254,14 +1341,16 @@ def oracle(c, ires, mres):
     if c["kind"] == "twins":
         if ires["eq12"] != ires["eq21"] or ires["eq12"] == ires["ne12"]:
             return "== is not symmetric / != is not its negation"
-        if c["variation"] in ("same", "same-objects", "noneq-fields", "nested-noneq", "permuted", "dict-vs-idict") and not ires["eq12"]:
+        if c["variation"] in ("same", "same-objects", "noneq-fields", "nested-noneq", "permuted", "dict-vs-idict",
+                              "equal-but-differently-spelled") and not ires["eq12"]:
             return "objects built from equal arguments (%s) are not equal" % c["variation"]
         if ires["eq12"] and ires["h1"] != "U" and ires["h2"] != "U":
             if ires["h1"] != ires["h2"]:
                 return "equal objects have different hashes"
             if not ires.get("dict_key") or not ires.get("set_member") or ires.get("set_size") != 1:
                 return "equal objects do not act as the same dict key / set member"
-        if ires["eq12"] and c["variation"] in ("same", "same-objects") and (ires["h1"] == "U") != (ires["h2"] == "U"):
+        if ires["eq12"] and c["variation"] in ("same", "same-objects", "equal-but-differently-spelled") \
+                and (ires["h1"] == "U") != (ires["h2"] == "U"):
             return "objects built from the same arguments: one hashable, one not"
         return None
     if c["kind"] == "perms":
@@ -1340,6 +1429,16 @@ def shrink(c):
     if c["kind"] == "script":
         for i in range(len(c["steps"])):
             yield dict(c, steps=c["steps"][:i] + c["steps"][i + 1:])
+    if c["kind"] == "twins":
+        # drop one key of a mapping argument from both sides
+        for i, (f, v) in enumerate(c["args1"]):
+            w = c["args2"][i][1] if i < len(c["args2"]) else None
+            if v is not None and w is not None and v[0] in ("d", "I") and w[0] in ("d", "I"):
+                for k, _ in v[1]:
+                    v2 = [v[0], [it for it in v[1] if it[0] != k]] + v[2:]
+                    w2 = [w[0], [it for it in w[1] if it[0] != k]] + w[2:]
+                    yield dict(c, args1=[[g, (v2 if j == i else x)] for j, (g, x) in enumerate(c["args1"])],
+                               args2=[[g, (w2 if j == i else x)] for j, (g, x) in enumerate(c["args2"])])
 
 
 # ------------------------------------------------------------------ run-time cross-checks of the model's tables
